@@ -5,7 +5,8 @@
    gstd false a = ... over the NON-sampled rows only.  The fitted nuisance values are oracle fields of the rows;
    "saturated" (sat_S / sat_A / sat_Q) says they are the cell proportions / cell means of the study sample. *)
 From Coq Require Import QArith List.
-From Zepid Require Import Base.QSum Base.QUtil Base.Rows Model.Estimators Model.Generalize Proofs.GeneralizeProofs.
+From Zepid Require Import Base.QSum Base.QUtil Base.Rows Model.Estimators Model.Generalize Proofs.GeneralizeProofs GenProofs.GenProofs_gener.
+From ZepidGen Require Import Gen_gener_Q.
 Import ListNotations.
 Open Scope Q_scope.
 
@@ -93,6 +94,54 @@ Proof.
     + repeat split; try reflexivity; discriminate.
 Qed.
 
+(* ---- the CURRENT source of zepid.causal.generalize.estimators (translated on every run) is the model above *)
+(* IPSW.sampling_model: inverse probability of sampling for generalize, inverse odds for transport *)
+Theorem C16_src_ipsw_sampling_weight : forall gn stab n d, src_ipsw_samp gn stab n d == samp_w gn stab n d.
+Proof. exact gen_ipsw_samp. Qed.
+Theorem C16_src_ipsw_sampling_weight_bounded : forall gn stab pb n d,
+  src_ipsw_samp_b gn stab pb n d == samp_w gn stab (if stab then pb n else n) (pb d).
+Proof. exact gen_ipsw_samp_bounded. Qed.
+Theorem C16_src_aipsw_sampling_weight : forall gn stab n d,
+  src_aipsw_samp gn stab true n d == samp_w gn stab n d /\ ((gn = true \/ stab = true) -> src_aipsw_samp gn stab false n d == 0).
+Proof. exact (fun gn stab n d => conj (gen_aipsw_samp_sampled gn stab n d) (gen_aipsw_samp_outside gn stab n d)). Qed.
+(* the weight used by .fit is the product of the sampling weight and (when treatment_model was called) the treatment weight *)
+Theorem C16_src_ipsw_total_weight : forall c r w,
+  (if rx c then ipsw_fit_ipw_iptw_now_Q else ipsw_fit_ipw_noiptw_now_Q)
+     (samp_w (gen c) (stabS c) (nS c) (ps r)) (trt_w true (stabA c) (nA c) (ga r) (pa r)) w == tot_w c r /\
+  (if rx c then ipsw_fit_ipw_iptw_w_Q else ipsw_fit_ipw_noiptw_w_Q)
+     (samp_w (gen c) (stabS c) (nS c) (ps r)) (trt_w true (stabA c) (nA c) (ga r) (pa r)) w == tot_w c r * w.
+Proof. exact gen_ipsw_fit_ipw. Qed.
+Theorem C16_src_aipsw_total_weight : forall c r w,
+  (if rx c then aipsw_fit_ipw_iptw_now_Q else aipsw_fit_ipw_noiptw_now_Q)
+     (samp_w (gen c) (stabS c) (nS c) (ps r)) (trt_w true (stabA c) (nA c) (ga r) (pa r)) w == tot_w c r /\
+  (if rx c then aipsw_fit_ipw_iptw_w_Q else aipsw_fit_ipw_noiptw_w_Q)
+     (samp_w (gen c) (stabS c) (nS c) (ps r)) (trt_w true (stabA c) (nA c) (ga r) (pa r)) w == tot_w c r * w.
+Proof. exact gen_aipsw_fit_ipw. Qed.
+(* IPSW.fit: weighted arm means over the rows with selection == 1 *)
+Theorem C16_src_ipsw_fit : forall c (a : bool) l, (if a then ipsw_fit_r1_Q else ipsw_fit_r0_Q) (sview c l) == ipsw_risk c a l.
+Proof. exact gen_ipsw_fit_risk. Qed.
+(* AIPSW.fit: all rows (generalize) / rows with selection == 0 (transport) carry the prediction, sampled rows of the arm the
+   weighted residual; whatever the weight column holds outside the study sample is irrelevant *)
+Theorem C16_src_aipsw_fit : forall c junk a l,
+  (match gen c, a with
+   | true, true => aipsw_fit_gen_r1_Q | true, false => aipsw_fit_gen_r0_Q
+   | false, true => aipsw_fit_trn_r1_Q | false, false => aipsw_fit_trn_r0_Q end) (aview c junk l) == aipsw_risk c a l.
+Proof. exact gen_aipsw_fit. Qed.
+(* GTransportFormula.fit: mean prediction over all rows (generalize) / over the rows with selection == 0 (transport) *)
+Theorem C16_src_gtransport_fit : forall w gn a l,
+  (match gn, a with
+   | true, true => gt_fit_gen_now_r1_Q | true, false => gt_fit_gen_now_r0_Q
+   | false, true => gt_fit_trn_now_r1_Q | false, false => gt_fit_trn_now_r0_Q end) (tview w l) == gt_risk gn a l.
+Proof. exact gen_gt_fit_unweighted. Qed.
+Theorem C16_src_gtransport_fit_weighted : forall w gn a l,
+  (match gn, a with
+   | true, true => gt_fit_gen_w_r1_Q | true, false => gt_fit_gen_w_r0_Q
+   | false, true => gt_fit_trn_w_r1_Q | false, false => gt_fit_trn_w_r0_Q end) (tview w l) == gt_risk_w w gn a l.
+Proof. exact gen_gt_fit_weighted. Qed.
+Theorem C16_gtransport_unit_weights : forall gn a l, gt_risk_w (fun _ => 1) gn a l == gt_risk gn a l.
+Proof. exact gt_risk_w_unit. Qed.
+
+
 Print Assumptions C16_ipsw_generalize_std.
 Print Assumptions C16_ipsw_transport_std.
 Print Assumptions C16_ipsw_norx_balanced_std.
@@ -104,3 +153,13 @@ Print Assumptions C16_measures_are_std.
 Print Assumptions C16_outside_outcomes_irrelevant.
 Print Assumptions C16_exec_twins.
 Print Assumptions C16_generalize_target_is_std_all.
+Print Assumptions C16_src_ipsw_sampling_weight.
+Print Assumptions C16_src_ipsw_sampling_weight_bounded.
+Print Assumptions C16_src_aipsw_sampling_weight.
+Print Assumptions C16_src_ipsw_total_weight.
+Print Assumptions C16_src_aipsw_total_weight.
+Print Assumptions C16_src_ipsw_fit.
+Print Assumptions C16_src_aipsw_fit.
+Print Assumptions C16_src_gtransport_fit.
+Print Assumptions C16_src_gtransport_fit_weighted.
+Print Assumptions C16_gtransport_unit_weights.
